@@ -200,7 +200,9 @@ class OutboxRelay(Entity):
             return [self._schedule_poll()]
         return []
 
-    def _handle_poll(self, event: Event) -> Generator[float, None, list[Event]]:
+    def _handle_poll(
+        self, event: Event
+    ) -> Generator[float | tuple[float, list[Event]], None, list[Event]]:
         """Process a batch of pending outbox entries."""
         self._poll_scheduled = False
         self._poll_cycles += 1
@@ -234,9 +236,13 @@ class OutboxRelay(Entity):
                 )
             )
 
-            # Simulate relay latency between entries
+            # Simulate relay latency between entries. The entry's relay event
+            # is handed to the engine together with the wait (side effect of
+            # the yield) so that it is scheduled at the instant it is stamped
+            # with; holding it back until this generator returns would emit
+            # it in the past and the engine would discard it.
             if self._relay_latency > 0:
-                yield self._relay_latency
+                yield self._relay_latency, [relay_events.pop()]
 
         logger.debug(
             "[%s] Poll cycle: relayed %d entries, %d remaining",
